@@ -20,5 +20,8 @@ MCConfigsSync == {Mk(mf, "always", th) : mf \in {0, 60}, th \in {ThAll, ThFrag}}
 \* entries per file; merges select everything / only fragmented files): used for deeper generation
 MCConfigsGen2 == {Mk(0, "none", ThAll), Mk(26, "none", ThFrag)}
 
+\* the four configurations used for the system-call level generation (crash / fault scopes)
+MCConfigsFs == {Mk(mf, "none", th) : mf \in {0, 60}, th \in {ThAll, ThFrag}}
+
 OpsBound == nops <= MaxOps
 ==============================================================================
